@@ -71,6 +71,16 @@ def run(rep, tier, seed, replay):
             diag = coq_val(c4.stdout) if c4.returncode == 0 else None
             diag_err = (c4.stderr or c3.stderr)[-800:]
 
+    # ---- thorough tier: the independent checker re-verifies the compiled proofs
+    chk = None
+    if tier == "thorough" and ok:
+        pc = vlib.sh(["timeout", "1500", "coqchk", "-silent"] + vlib.COQ_Q + ["Verif.C15"], cwd=vlib.COQ, timeout=1600,
+                     stack_unlimited=True)
+        chk = pc.returncode == 0
+        if not chk:
+            rep.violation("coqchk", "coqchk rejects Properties/C15.vo: " + (pc.stderr or pc.stdout)[-800:],
+                          {"property": "C15", "broken_tie": "coqchk Verif.C15"}, found_input=False)
+
     # ---- oracle: the implementation's own outputs judged against BIP341 (property violations)
     for v in r["violations"]:
         n = r["violation_counts"].get(v["key"], 1)
@@ -115,8 +125,8 @@ def run(rep, tier, seed, replay):
                               {"property": "C15", "broken_tie": "tap_cases_match_model"}, found_input=False)
 
     oracle_ok = not r["violations"]
-    obligations = len(thms) + 2
-    discharged = (len(thms) if ok else 0) + (1 if tie_ok else 0) + (1 if oracle_ok else 0)
+    obligations = len(thms) + 2 + (1 if chk is not None else 0)
+    discharged = (len(thms) if ok else 0) + (1 if tie_ok else 0) + (1 if oracle_ok else 0) + (1 if chk else 0)
     rep.coverage.update({
         "obligations": obligations, "discharged": discharged,
         "checker_cmd": "make -C coq (coqc 8.16.1) ; coqc Properties/C15.v ; verif-harness tap <seed> <report> > Tables/TapCasesGen.v ; "
@@ -127,7 +137,7 @@ def run(rep, tier, seed, replay):
         "evaluations": r["variants_observed"], "distinct_nontrivial": r["distinct_shapes"],
         "cases": r["cases"], "leaves_judged_by_oracle": r["leaves_judged"], "rejected_cases_above_128": r["rejected_cases"],
         "cases_compared_in_coq": {"accepted": r["coq_ok"], "depth_rejected": r["coq_rej"], "malformed": r["coq_bad"]},
-        "differing_cases_in_coq": n_diff,
+        "differing_cases_in_coq": n_diff, "coqchk": chk,
         "rule": "every binary tree shape with <= %d leaves; left/right/zig-zag chains of every depth 1..128 and 129 (rejection); chains ending in "
                 "full subtrees at depth 127..129; seeded random shapes up to 64 leaves; random deep spines around the limit; each built through "
                 "TapTree::combine and through the parser, re-parsed from Display, translated with an injective key map (same key type and from named keys)"
